@@ -210,6 +210,8 @@ class EffectMonitor:
         elif n in ('AntePosting', 'BlindOrStraddlePosting', 'BringInPosting', 'CheckingOrCalling'):
             if ds[i] != -op.amount or db[i] != op.amount or not others_untouched:
                 bad = f'stack change {ds} / bet change {db} vs recorded amount {op.amount}'
+            if n == 'BringInPosting' and -ds[i] < st.bring_in:
+                ctx.counters['bring_ins_posted_in_part'] += 1
         elif n == 'CompletionBettingOrRaisingTo':
             if cur['bets'][i] != op.amount or ds[i] != -db[i] or not others_untouched:
                 bad = f'bet after {cur["bets"][i]} vs recorded raise-to {op.amount}'
@@ -293,6 +295,10 @@ def jobs(tier, seed):
                       dev_bound=5 if not th else None))
         out.append(_j('stud-2', C.stud((3, 6), autos=au), dev_bound=5 if not th else 7))
         out.append(_j('razz-3', C.stud((2, 5, 4), autos=au, game='FixedLimitRazz'), dev_bound=3 if not th else 4))
+        # a bring-in larger than one chip: a stack between the ante and ante + bring-in posts it in part (the record must say what
+        # was posted), every seat in turn being that short stack
+        for stacks in [(2, 9), (9, 2), (2, 9, 9), (9, 2, 9), (9, 9, 2)]:
+            out.append(_j('stud-partial-bring-in', C.stud(stacks, autos=au, antes=1, bring_in=2, small=4, big=8), dev_bound=1 if not th else 3))
         out.append(_j('draw-2', C.nt((3, 5), autos=au, game='NoLimitDeuceToSevenLowballSingleDraw'),
                       opts={'raises': 'minmax', 'discards': ('none', 'first', 'two')}, dev_bound=3 if not th else 5))
         out.append(_j('badugi-2', C.fl((3, 5), autos=au, game='FixedLimitBadugi'),
@@ -318,7 +324,7 @@ def run_job(job):
 
 
 def sanity(agg, counters, fam, tier):
-    return [f'{k} == 0' for k in ('records_replayed', 'copy_events_checked', 'fresh_replays') if not counters.get(k)]
+    return [f'{k} == 0' for k in ('records_replayed', 'copy_events_checked', 'fresh_replays', 'bring_ins_posted_in_part') if not counters.get(k)]
 
 
 def bounds(tier):
